@@ -341,6 +341,23 @@ TOY_PARAMS = [(11, 1, 5), (11, 8, 1), (19, 0, 2), (19, 1, 4), (23, 1, 4), (23, 2
               (2003, 2000, 1), (3011, 1, 9), (3011, 3008, 15), (3967, 0, 6), (3967, 1, 3)]
 
 
+# families of prime-order curves over one field that all pass through (1, 1) (b = -a): two generators may share the prime and
+# the base point and still live on different curves.  (p, [a, ...]); orders are recomputed by brute force when used.
+TOY_THROUGH_1_1 = [(43, [24, 30, 31]), (67, [9, 22, 44, 52, 56]), (103, [3, 12, 43, 54]), (251, [11, 15, 35, 41]),
+                   (1019, [10, 11, 14, 21])]
+
+
+def toy_through_1_1(p, a):
+    b = (p - a) % p
+    assert (4 * a * a * a + 27 * b * b) % p != 0
+    n = _count_points(p, a, b)
+    assert _is_prime(n) and n >= 5 and n != p, (p, a, b, n)
+    c = MCurve(p, a, b, (1, 1), n)
+    assert c.on_curve(c.G)
+    c.name = "toy-p%d-a%d-b%d-n%d-G11" % (p, a, b, n)
+    return c
+
+
 def toy_curves():
     """a fixed list of MCurve objects of prime order with p = 3 (mod 4); deterministic"""
     global _TOY_CACHE
